@@ -1,5 +1,6 @@
 import EpModel.Driver.Util
 import EpModel.Model.Checksum
+import EpModel.Spec.Rfc1071
 /- `ck.*` operations: checksum helpers. -/
 namespace EpModel.Driver.Ck
 open EpModel EpModel.Driver EpModel.Checksum
@@ -36,6 +37,9 @@ def run (op : String) (args : List String) : Option String :=
       let bs ← parts.mapM argHex
       let s := bs.foldl addSlice64 0
       pure s!"{swap16 (onesComplement64 s)} {swap16 (onesComplementNoZero64 s)}"
+  | "spec.ck.rfc", [h] => do
+      let b ← argHex h
+      pure (toString (Spec.checksum b))
   | _, _ => none
 
 end EpModel.Driver.Ck
